@@ -1,4 +1,8 @@
+\* the current code, HTTP/1.1 and HTTP/2.0, requests of up to 3 header lines (thorough tier, in addition to DumpReq_gen.cfg)
 SPECIFICATION Spec
-CONSTANT MaxHeaders = 3
+CONSTANTS
+  MaxHeaders = 3
+  Protos = {"HTTP/1.1", "HTTP/2.0"}
+  LowerBeforeLookup = FALSE
 INVARIANTS DumpRedacts EmitCases
 CHECK_DEADLOCK FALSE
